@@ -31,6 +31,9 @@ type Program struct {
 	SSAPkg  map[string]*ssa.Package
 	funcs   []*ssa.Function // source functions of the module (incl. anonymous, instantiations)
 	RTDir   string          // directory of the pinned runtime module
+	base    *Baseline       // names/signatures of the tree the rules were confirmed on (rename recovery)
+	cur     *Baseline
+	Renamed map[string]string // baseline anchor -> current name, for every recovery that was applied
 }
 
 // RepoExtra are the packages the templates import (runtime + std), loaded with the repository.
@@ -156,6 +159,7 @@ func (p *Program) Pkg(rel string) *packages.Package {
 
 // Obj looks up a package-level object.
 func (p *Program) Obj(rel, name string) types.Object {
+	name = p.Resolve(rel, name)
 	pk := p.Pkg(rel)
 	if pk == nil || pk.Types == nil {
 		return nil
@@ -165,6 +169,7 @@ func (p *Program) Obj(rel, name string) types.Object {
 
 // Func returns the SSA function for a package-level function or "Type.Method".
 func (p *Program) Func(rel, name string) *ssa.Function {
+	name = p.Resolve(rel, name)
 	pk := p.Pkg(rel)
 	if pk == nil {
 		return nil
@@ -199,6 +204,7 @@ func (p *Program) Func(rel, name string) *ssa.Function {
 
 // Decl returns the AST declaration of a function given by rel + name ("F" or "T.M").
 func (p *Program) Decl(rel, name string) (*ast.FuncDecl, *packages.Package) {
+	name = p.Resolve(rel, name)
 	pk := p.Pkg(rel)
 	if pk == nil {
 		return nil, nil
